@@ -36,11 +36,16 @@
 (*     stat (the implementation's doc comment: "check if the file exists   *)
 (*     referred to by the resulting pathname") or as lstat (the directory  *)
 (*     entry exists) -- variants dg = FALSE / TRUE,                        *)
-(*   - an escaping backslash that stems from an expansion: XCU 2.14.1 lets *)
-(*     it quote the next character and vanish; patterns.md says it         *)
-(*     "escapes the following character" but is "not subject to quote      *)
-(*     removal" and is silent on whether it has to be matched by a         *)
-(*     backslash in the file name -- variants bs = "esc" / "keep",         *)
+(*   - an escaping backslash that stems from an expansion "shall escape the*)
+(*     following character.  The escaping <backslash> shall be discarded"  *)
+(*     (XCU 2.14.1; patterns.md: it "escapes the following character" but  *)
+(*     is "not subject to quote removal").  A word that holds a special    *)
+(*     "*", "?" or "[" must be matched that way (bs = "esc").  A word whose*)
+(*     only active characters are such backslashes need not be matched at  *)
+(*     all (XCU 2.14.3: only a pattern with a special * ? [ "shall be      *)
+(*     matched against existing filenames"): it may be matched (and be     *)
+(*     replaced by the file name, without the backslash) or be left as it  *)
+(*     is -- variants bs = "esc" / "keep",                                 *)
 (*   - patterns whose meaning Fnmatch leaves open (Parse(..).un # {}),     *)
 (*     and a trailing escaping backslash in a component: Unspecified.      *)
 (***************************************************************************)
@@ -118,7 +123,7 @@ Removed(cs) == Str([i \in 1..Len(cs) |-> cs[i].c])
 (***************************************************************************)
 (* Components (XCU 2.14.3 rule 1: "The <slash> character in a pathname     *)
 (* shall be explicitly matched by using one or more <slash> characters in  *)
-(* the pattern ... <slash> characters in the pattern shall be identified    *)
+(* the pattern ... <slash> characters in the pattern shall be identified   *)
 (* before bracket expressions").  A quoted slash is a slash.               *)
 (***************************************************************************)
 RECURSIVE SplitSlash(_)
@@ -279,12 +284,18 @@ GlobP(cs, P, T, cwd, dg) ==
 HasEscape(cs) == \E i \in 1..Len(cs) : ActiveBackslash(cs, i)
 HasLink(T)    == \E p \in DOMAIN T : T[p].k = "l"
 
-BsChoices(cs) == IF HasEscape(cs) THEN {"esc", "keep"} ELSE {"esc"}
 DgChoices(T)  == IF HasLink(T) THEN {FALSE, TRUE} ELSE {FALSE}
 
+HasPattern(P) == \E i \in 1..Len(P) : ~P[i].lit
+
 \* the readings of the word: one sequence of prepared components per choice
-\* of bs; NU must cover the names of every tree they are used with
-Readings(cs, NU) == [bs \in BsChoices(cs) |-> Prepared(cs, bs, NU)]
+\* of bs (see the header); NU must cover the names of every tree they are
+\* used with
+Readings(cs, NU) ==
+  LET E == Prepared(cs, "esc", NU) IN
+  IF HasEscape(cs) /\ ~HasPattern(E)
+  THEN [bs \in {"esc", "keep"} |-> IF bs = "esc" THEN E ELSE Prepared(cs, "keep", NU)]
+  ELSE [bs \in {"esc"} |-> E]
 
 \* nothing is required of this word
 UnspecifiedR(PP) == \E bs \in DOMAIN PP : \E i \in 1..Len(PP[bs]) : PP[bs][i].un
